@@ -23,6 +23,8 @@ def run_case(ctx, case):
     start = curve_state(curve)
     if mode in ("elevate", "setter", "roundtrip"):
         impl(lambda: float_twin(U, P, W).degree_increase(t))       # float data first (cross-call caches)
+        for tw in mixed_twins(U, P, W):
+            impl(lambda: tw.degree_increase(t))                    # int / float knots with exact points
         if mode == "setter":
             def act():
                 curve.degree = p + t
